@@ -71,9 +71,9 @@ import (
 func TestMain(m *testing.M) {
 	evid.Tests(
 		evid.Spec{Name: "TestReplay", Kind: "plain", QuickShards: 1, ThoroughShards: 1},
-		evid.Spec{Name: "TestPropRoundTrip", Kind: "rapid", Quick: 16000, Thorough: 1600000, QuickShards: 8, ThoroughShards: 16},
-		evid.Spec{Name: "TestPropTitle", Kind: "rapid", Quick: 24000, Thorough: 1600000, QuickShards: 6, ThoroughShards: 16},
-		evid.Spec{Name: "TestPropCLI", Kind: "rapid", Quick: 192, Thorough: 4800, QuickShards: 8, ThoroughShards: 16},
+		evid.Spec{Name: "TestPropRoundTrip", Kind: "rapid", Quick: 48000, Thorough: 2400000, QuickShards: 8, ThoroughShards: 16},
+		evid.Spec{Name: "TestPropTitle", Kind: "rapid", Quick: 64000, Thorough: 2400000, QuickShards: 8, ThoroughShards: 16},
+		evid.Spec{Name: "TestPropCLI", Kind: "rapid", Quick: 480, Thorough: 8000, QuickShards: 8, ThoroughShards: 16},
 	)
 	evid.Commands("obiconvert")
 	evid.Note("rule", "roundtrip: sets of 1-4 generated records (identifier without blanks incl. > @ + { } \" = ;, optional definition, IUPAC sequence of length 1..300 biased to 1/59-61/119-121, optional qualities, 0-5 annotations drawn from str|int(|x|<=2^53)|finite float|bool|map[string]int|map[string]string|[]int with hostile Unicode strings) x format fasta/fastq x quality offset 33/64 (same on both sides) x header parser json/guessed; the records are formatted by FormatFastaBatch/FormatFastqBatch + FormatFastSeqJsonHeader, the text is read (1) by an independent line reader + encoding/json and (2) by FastaChunkParser/FastqChunkParser + the header parser; both readings must give back identifiers, nucleotides, qualities (clamped at 93), definition and annotation keys/values (numbers by value as float64, nested recursively, nothing missing and nothing extra), and re-formatting the re-read records must be byte-identical. title: structured random title lines (JSON objects with random spacing/escapes/nesting/number syntax, OBI key=value headers, free hostile text, mutated tool output); when the parser accepts a title, parse(format(parse(title))) must equal parse(title) and the second formatting must be byte-identical to the first. cli: harness-written FASTA/FASTQ files (JSON written by encoding/json) -> obiconvert -> out1, read by the independent reader and compared with the records; out1 -> obiconvert (file and stdin) must be byte-identical to out1, for default, --fasta-output and --fastq-output. Non-trivial = at least one string (value, nested key/value, definition or key) containing one of \" \\ { } ; = > @, or a nested map/list, or a sequence longer than 60 (title check: the parser accepted the title and produced at least one annotation besides the definition, or a definition containing one of those characters). Distinct = hash of the whole case.")
@@ -559,7 +559,10 @@ func checkTitle(c titleCase) error {
 	if b.Id() != a.Id() || b.String() != a.String() {
 		return fmt.Errorf("%s: formatted as %q; identifier/sequence read back as %q/%q", what, text, b.Id(), b.String())
 	}
-	if defA != defB {
+	// (a "definition" annotation that is not a string - e.g. the OBI-style header
+	// "definition=12;" - is compared by value with the other annotations below;
+	// its %v rendering by Definition() depends on the numeric type)
+	if _, isString := a.Annotations()["definition"].(string); (isString || !a.HasDefinition()) && defA != defB {
 		return fmt.Errorf("%s: first parse gives definition %q; formatted as %q; second parse gives definition %q", what, defA, text, defB)
 	}
 	if !reflect.DeepEqual(annA, annB) {
